@@ -9,6 +9,7 @@
 import NcVerif.Spec.Ops
 import NcVerif.Proofs.XmlText
 import NcVerif.Proofs.XmlDoc
+import NcVerif.Proofs.Builders
 namespace NcVerif.C07
 open NcVerif NcVerif.Gen NcVerif.OpsSpec NcVerif.XmlText NcVerif.XmlDoc
 
@@ -102,6 +103,53 @@ theorem rpc_envelope_roundtrip (pfx mid n : Str) (attrs : List (Str × Str)) (cs
     parseDoc (serialize (rpcTree pfx mid (.elem n attrs cs))) = some (rpcTree pfx mid (.elem n attrs cs)) ∧
     attrOf "message-id".toList (rpcTree pfx mid (.elem n attrs cs)) = some mid :=
   XmlDocP.rpc_roundtrip pfx mid n attrs cs hp hop
+
+/-! ## The request builders themselves, for ALL argument values (Model/Builders: edit-config, lock, unlock,
+get-config, delete-config, copy-config, validate, commit, cancel-commit, discard-changes, kill-session,
+close-session of the default profile; compared with the real Manager byte for byte on random arguments) -/
+
+section Builders
+open NcVerif.Builders NcVerif.BuildersP
+
+/-- Whatever strings the caller passes: a request that is built is ONE well-formed `<rpc>` whose operation
+    element the peer reads back exactly as it was built — datastore names, URLs, option values, texts and
+    the configuration fragment included — together with its message-id. -/
+theorem built_request_roundtrip (has : Str → Bool) (call : Call) (t : XNode) (mid : Str)
+    (hcfg : ∀ c tg d to e, call = .edit (.xml c) tg d to e → Good c) (h : build has call = .ok t) :
+    parseDoc (serialize (rpcTree "nc:".toList mid t)) = some (rpcTree "nc:".toList mid t) ∧
+    attrOf "message-id".toList (rpcTree "nc:".toList mid t) = some mid := by
+  obtain ⟨⟨hw, hnt⟩, _⟩ := build_ok has call t hcfg h
+  cases t with
+  | text _ => simp [XmlDocP.isText] at hnt
+  | elem n a cs => exact XmlDocP.rpc_roundtrip "nc:".toList mid n a cs (Or.inl rfl) hw
+
+/-- `edit_config`: an option value outside its RFC 6241 enumeration never yields a request; the parameter
+    elements come in the order RFC 6241 §7.2 fixes. -/
+theorem edit_config_enumerations_and_order (has : Str → Bool) (config : Config) (target : Str) (dop top eop : Option Str) (t : XNode)
+    (hcfg : ∀ c, config = .xml c → Good c) (h : editConfig has config target dop top eop = .ok t) :
+    (∀ d, dop = some d → ∃ a ∈ enumDo, Builders.s a = d) ∧ (∀ x, top = some x → ∃ a ∈ enumTo, Builders.s a = x) ∧
+    (∀ e, eop = some e → ∃ a ∈ enumEo, Builders.s a = e) ∧
+    (paramNames t).Sublist ([nc "target"] ++ [nc "default-operation"] ++ [nc "test-option"] ++ [nc "error-option"] ++
+      [nc "config", Builders.s "config", nc "config-text", nc "url"]) := by
+  have h' := editConfig_ok has config target dop top eop t hcfg h
+  exact ⟨h'.2.2.1, fun x hx => (h'.2.2.2.1 x hx).1, fun e he => (h'.2.2.2.2.1 e he).1, h'.2.2.2.2.2.2⟩
+
+/-- A datastore argument lands on the wire as the caller gave it: a URL as the text of `<url>`, a name as the
+    (only) child element of `<source>` / `<target>`. -/
+theorem datastore_argument_faithful (has : Str → Bool) (wha : String) (loc : Str) (x : XNode)
+    (hn : validName (nc wha) = true) (h : datastoreOrUrl has wha loc = .ok x) :
+    (hasSub (Builders.s "://") loc = true → x = el wha [.elem (nc "url") [] (if loc.isEmpty then [] else [.text loc])]) ∧
+    (hasSub (Builders.s "://") loc = false → x = el wha [.elem (Builders.s "nc:" ++ loc) [] []]) := by
+  obtain ⟨_, hu, hn'⟩ := datastoreOrUrl_good has wha loc x hn h
+  exact ⟨fun hh => (hu hh).2, hn'⟩
+
+example : builtText (build (fun _ => true) (.edit (.text "set <x>".toList) "running".toList none (some "set".toList) none))
+    = some "<nc:edit-config><nc:target><nc:running/></nc:target><nc:test-option>set</nc:test-option><nc:config-text><nc:configuration-text>set &lt;x&gt;</nc:configuration-text></nc:config-text></nc:edit-config>".toList := by
+  decide +kernel
+example : refusal (build (fun _ => true) (.edit (.text "x".toList) "running".toList (some "Merge".toList) none none)) = some .operationError := by
+  decide +kernel
+example : refusal (build (fun _ => true) (.lock "bad name".toList)) = some .valueError := by decide +kernel
+end Builders
 
 /-! Non-vacuity -/
 example : serialize (.elem "g".toList [] [.elem "f".toList [("s".toList, "a\"<".toList)] [.text "</f><k/>".toList]])
